@@ -228,6 +228,10 @@ def judge (st : OState) (op : String) (frame : Bytes) (ann : List String) (out :
     if frame.length < hl then (if r == "1" then "violates reject short-frame" else "ok") else
     let h := frame.take hl
     let body := frame.drop hl
+    -- a frame that is not protected is none of the decrypters' business
+    if frame.getD 1 0 &&& 0x40 == 0 then
+      (if r == "1" then "violates unprotected-frame-reported-decrypted"
+       else if !body.isEmpty && inner == "none" then "violates unprotected-frame-damaged" else "ok") else
     -- installed keys, as (cipher, key material) candidates
     let cands : List (String × Bytes) :=
       if op == "wep" then st.wep.map fun (_, k) => ("wep", k)
